@@ -299,4 +299,51 @@ theorem TInv.gcUsage {s : Store} (hs : StoreInv s) {t : Thread} (h : TInv s t) (
   · exact .inl h
   · exact .inr ⟨h1.gcUsage hs nm, h2.of_born (gcUsage_born s nm)⟩
 
+/-- a rewrite of a stored Usage (fresh rv) that keeps name, finalizer, spec.of and deletion state -/
+theorem ThreadBase.rewrite {s : Store} (hs : StoreInv s) {t : Thread} (h : ThreadBase s t) {x n : Usage}
+    (hx : x ∈ s.usages) (hn : n.name = x.name) (hrv : n.rv = s.nextRv) (hf : n.fin = x.fin) (ho : n.of = x.of)
+    (hd : n.deleting = x.deleting) : ThreadBase (s.putU n).bump t := by
+  by_cases hne : x.name = t.uname
+  · refine ⟨h.name, by have := h.rvb; simp; omega, ?_, ?_, h.ok.mono (by simp)⟩
+    · intro y hy hyn hrv'
+      simp only [bump_usages, mem_putU] at hy
+      rcases hy with ⟨hy, _⟩ | ⟨rfl, _⟩
+      · exact h.same y hy hyn hrv'
+      · have := h.rvb; omega
+    · intro hfin
+      obtain ⟨w, hw, h1, h2, h3, h4⟩ := h.hold hfin
+      have hwx : w = x := hs.usageUniq w hw x hx (by rw [h1, hne])
+      subst hwx
+      refine ⟨n, ?_, hn.trans h1, hf.trans h2, ho.trans h3, fun hdel => hd.trans (h4 hdel)⟩
+      rw [bump_usages]
+      exact mem_putU.mpr (.inr ⟨rfl, w, hw, hn.symm⟩)
+  · exact h.putU_other (n := n) (by rw [hn]; exact hne)
+
+theorem reapplyUsage_born (s : Store) (nm c : String) : (s.reapplyUsage nm c).1.born = s.born := by
+  unfold Store.reapplyUsage
+  split
+  · rfl
+  · split
+    · rfl
+    · split
+      · rfl
+      · split <;> rfl
+
+theorem TInv.reapplyUsage {s : Store} (hs : StoreInv s) {t : Thread} (h : TInv s t) (nm c : String) :
+    TInv (s.reapplyUsage nm c).1 t := by
+  rcases h with h | ⟨h1, h2⟩
+  · exact .inl h
+  · refine .inr ⟨?_, h2.of_born (reapplyUsage_born s nm c)⟩
+    unfold Store.reapplyUsage
+    split
+    · exact h1
+    · next x hg =>
+      split
+      · exact h1
+      · split
+        · exact h1
+        · split
+          · exact h1
+          · exact h1.rewrite hs (getU_some hg).1 rfl rfl rfl rfl rfl
+
 end Xp.C19
